@@ -76,6 +76,7 @@ type Step struct {
 	CrashStep      *int     `json:"crash_step,omitempty"`       // W-conc: crash before the k-th scheduling decision of the block
 	CrashAfterTask *int     `json:"crash_after_task,omitempty"` // W-conc: crash at the instant task i has finished while another is in a call
 	Sweep          bool     `json:"sweep,omitempty"`            // W-conc: run every single-preemption schedule
+	Handles        int      `json:"handles,omitempty"`          // W-conc: 2 = every caller has its own store handle on the one database file (a second process, e.g. hookaido mcp)
 }
 
 // Fault: "at the n-th hit of site <Site> (after step AfterStep began), do Action".
